@@ -60,6 +60,7 @@ type options struct {
 	Exclude     string // comma separated operation names never drawn
 	NoCancel    bool   // never draw cancelled contexts
 	ListReaders int    // goroutines walking store.DBs() like the monitors / status handlers
+	ListFail    int    // the first N level-0 listings of every fresh DB object's replica client fail
 	LSLog       string // file receiving litestream's debug log
 }
 
@@ -104,6 +105,7 @@ type harness struct {
 	lvlMu [][3]sync.Mutex // per path: L1, L2, snapshot level (see disciplineLock)
 
 	unregInFlight []atomic.Int32 // per path: UnregisterDB calls in progress (marker only)
+	listFaults    atomic.Int64   // injected listing failures that were hit
 	lastRestore   []string       // per path: part A's restored file when it equalled the source (final goroutine only)
 	lastTXID      []ltx.TXID     // per path: the TXID part A restored to (the replica's newest L0 file at that moment)
 
@@ -156,6 +158,7 @@ func main() {
 	flag.StringVar(&o.Discipline, "discipline", "daemon", "api: no harness serialisation; daemon: one compaction per (db,level) and one snapshot per db at a time, as the daemon's monitors guarantee; strict: additionally register/unregister of one path are mutually exclusive")
 	flag.BoolVar(&o.KeepOrphans, "keeporphans", false, "do not close orphaned (re-initialised after Close) DB objects before the lock/fd probes, to see what they leak")
 	flag.StringVar(&o.LSLog, "lslog", "", "diagnostic: write litestream's debug log to this file")
+	flag.IntVar(&o.ListFail, "listfail", 0, "fault: the first N level-0 listings of every fresh DB object's replica client fail (first init fails after the read lock was taken)")
 	flag.IntVar(&o.ListReaders, "listreaders", 2, "goroutines that walk store.DBs() (Path/IsOpen/Pos/… on every element) concurrently with the workers")
 	flag.BoolVar(&o.NoCancel, "nocancel", false, "never draw cancelled contexts")
 	flag.StringVar(&o.Exclude, "exclude", "", "comma separated operation names that are never drawn (e.g. unreg,reg,regstorm,disable,enable)")
@@ -523,6 +526,11 @@ func (h *harness) newDB(i int) *litestream.DB {
 	client := file.NewReplicaClient(h.rdirs[i])
 	r := litestream.NewReplicaWithClient(db, client)
 	client.Replica = r // as cmd/litestream does
+	if h.o.ListFail > 0 {
+		fc := &faultClient{ReplicaClient: client, hits: &h.listFaults}
+		fc.fails.Store(int32(h.o.ListFail))
+		r.Client = fc
+	}
 	db.Replica = r
 	db.BusyTimeout = 300 * time.Millisecond // litestream default is 1s; shorter keeps episodes with lock conflicts short
 	if h.o.Monitors {
